@@ -620,6 +620,52 @@ def prove_reader_loop(src_root, ex: Explorer):
     ex.run(path, 'reader_loop')
 
 
+def prove_receive_message_object(src_root, ex: Explorer):
+    """C02.receive_message_object: the contract the reader loop and on_peer_accepted rely on.  None is returned ONLY when receive_message
+    returned None (EOF, the connection was closed by _read); every frame - of any length from the bare header on - is handed to
+    decode_message_data, whose result is returned and whose MessageDeserializationError passes through."""
+    outcomes = ['eof', 'frame', 'frame-malformed']
+
+    def path(ctx: Ctx):
+        it = mk_total_interp(src_root, ctx, prim_contracts=False)
+        conn = conn_obj(it, ctx)
+        oc = outcomes[ctx.choose(3, 'receive_message')]
+        n = ctx.fresh_int('frame_length')
+        header = 8 if conn.attrs['obfuscated'] else 4
+        ctx.assume(n >= header)             # C02.framing: a frame is at least its header (a length prefix of 0 is a legal frame)
+
+        class Frame:
+            def pyvc_len(self, it2):
+                return Sym(n, 'int')
+
+            def pyvc_truth(self, it2):
+                return n > 0
+        frame = Frame()
+        decoded = []
+        MESSAGE = new(it, MSG, 'Ping.Request')
+        it.hooks[f'{CONN}:DataConnection.receive_message'] = lambda it2, f, a, k: A.SimpleAwaitable(it2.aio, 'receive_message', lambda it3: None if oc == 'eof' else frame)
+
+        def c_decode(it2, f, a, k):
+            decoded.append(a[1])
+            if oc == 'frame-malformed':
+                it2.throw(cls(it2, 'exceptions', 'MessageDeserializationError'), 'bad')
+            return MESSAGE
+        it.hooks[f'{CONN}:DataConnection.decode_message_data'] = c_decode
+        try:
+            r = run(it, it.getattr(conn, 'receive_message_object'))
+        except PyRaise as pr:
+            ctx.prove(f'C02.receive_message_object.contract[{oc}]', oc == 'frame-malformed' and pr.exc.cls.name == 'MessageDeserializationError' and decoded == [frame],
+                      f'raises {pr.exc!r}')
+            return
+        if oc == 'eof':
+            ctx.prove('C02.receive_message_object.contract[eof]', r is None and not decoded)
+        else:
+            ctx.prove(f'C02.receive_message_object.contract[{oc}]', oc == 'frame' and r is MESSAGE and decoded == [frame],
+                      'a received frame (of any length) must be decoded and its message returned: None means EOF to the reader loop, '
+                      'which would stop reading while the connection stays open')
+    ex.run(path, 'receive_message_object')
+
+
 def prove_perform_callback(src_root, ex: Explorer):
     pass
 
@@ -779,7 +825,7 @@ def items(src_root, tier):
     out += [('msg', q) for q in sorted(LAYOUT['messages'])]
     out += [('dispatch', d) for d in DISPATCHERS]
     out += [('obf', None), ('conn', 'decode'), ('conn', 'framing'), ('conn', 'read'), ('conn', 'loop'),
-            ('conn', 'accepted'), ('handlers', None)]
+            ('conn', 'accepted'), ('conn', 'receive-object'), ('handlers', None)]
     return out
 
 
@@ -803,7 +849,7 @@ def run_item(src_root, item, tier):
             prove_obf_total(src_root, ex)
         elif kind == 'conn':
             {'decode': prove_decode_message_data, 'framing': prove_framing, 'read': prove_read,
-             'loop': prove_reader_loop, 'accepted': prove_on_peer_accepted}[arg](src_root, ex)
+             'loop': prove_reader_loop, 'accepted': prove_on_peer_accepted, 'receive-object': prove_receive_message_object}[arg](src_root, ex)
         elif kind == 'handlers':
             scan_handlers(src_root, ex, res)
     except Unsupported as e:
@@ -815,6 +861,6 @@ def run_item(src_root, item, tier):
     collect(res, ex)
     res.functions.update([
         f'{CONN}:DataConnection.decode_message_data', f'{CONN}:DataConnection._read_message', f'{CONN}:DataConnection._read',
-        f'{CONN}:DataConnection._message_reader_loop', f'{CONN}:DataConnection._perform_message_callback',
+        f'{CONN}:DataConnection._message_reader_loop', f'{CONN}:DataConnection._perform_message_callback', f'{CONN}:DataConnection.receive_message_object',
         f'{NET}:Network.on_peer_accepted', f'{OBF}:decode'])
     return res
